@@ -4,6 +4,7 @@ import Model.C14.Descriptor
 import Model.C14.Scan
 import Model.C14.Multipath
 import Model.C14.Derive
+import Model.C14.Musig
 import Model.C14.Wallet
 import Model.C07.Instance
 import Model.Common.Sha256
@@ -193,6 +194,12 @@ def handle : List String → String
     | some tb, some x, some c, some m, some t =>
       pOut (Desc.parseKey tb.oracle x c m t) fun k => s!"{renderKey k} | {cpsOut (Desc.strKey k)}"
     | _, _, _, _, _ => "bad-op"
+  | ["musig", tbl, txt] =>
+    match table? tbl, cps? txt with
+    | some tb, some t =>
+      pOut (Desc.parseMusig tb.oracle t) fun m =>
+        s!"M[{renderKeys m.participants};p={natsOut m.path};w={if m.wildcard then 1 else 0}] | {cpsOut (Desc.strMusig m)}"
+    | _, _ => "bad-op"
   | ["parse", tbl, txt] =>
     match table? tbl, cps? txt with
     | some tb, some t => pOut (Desc.parse tb.oracle t) fun d => s!"{renderD d} | {cpsOut (Desc.strD d)}"
